@@ -61,8 +61,10 @@ def ns_config(draw, tier: str, kinds=None, n_min_fn=None, widths=(0, 1, 2, 3, 4)
         cfg["rho"] = draw(gen.nice_or_log(0.1, 10.0, nice=(1.0,)))
         cfg["width"] = draw(st.sampled_from(list(widths)))
         if kind == "ns3d":
-            cfg["filter"] = draw(st.one_of(st.none(), st.fixed_dictionaries(
-                {"type": st.sampled_from(["multiplicative", "convolution"]), "order": st.integers(1, 3)}))) if filters else None
+            cfg["filter"] = draw(st.one_of(st.none(), st.just({"type": "multiplicative", "order": 2}), st.fixed_dictionaries(
+                {"type": st.sampled_from(["multiplicative", "convolution"]), "order": st.integers(1, 3)}),
+                st.fixed_dictionaries({"type": st.sampled_from(["multiplicative", "convolution"]), "order": st.integers(1, 3)}))) \
+                if filters else None
             cfg["poisson"] = draw(st.sampled_from(["greens_function_convolution", "fast_diagonalisation"])) \
                 if fastdiag else "greens_function_convolution"
         else:
@@ -75,6 +77,8 @@ def ns_config(draw, tier: str, kinds=None, n_min_fn=None, widths=(0, 1, 2, 3, 4)
         cfg["width"] = 0
         cfg["filter"] = None
         cfg["poisson"] = None
+    # arguments equal to their documented default are left out of the constructor call (the way users write it)
+    cfg["omit_defaults"] = draw(st.booleans())
     lo = n_min_fn(cfg) if n_min_fn else max(5, 2 * cfg["width"] + 1)
     hi_default = {2: {"quick": 24, "thorough": 64}, 3: {"quick": 12, "thorough": 24}}[dim][tier]
     hi = max(n_max[dim] if n_max else hi_default, lo)
@@ -84,6 +88,24 @@ def ns_config(draw, tier: str, kinds=None, n_min_fn=None, widths=(0, 1, 2, 3, 4)
     return cfg
 
 
+DOCUMENTED_DEFAULTS = {"real_t": np.float32, "num_threads": 1, "time": 0.0, "with_forcing": False, "with_free_stream_flow": False,
+                       "flow_density": 1.0, "penalty_zone_width": 2, "filter_vorticity": False,
+                       "filter_setting_dict": {"order": 2, "type": "multiplicative"},
+                       "poisson_solver_type": "greens_function_convolution", "field_type": "scalar"}
+
+
+def _drop_defaults(kw):
+    """the same configuration, written the way a user would: arguments equal to their documented default are left out."""
+    out = {}
+    for k, v in kw.items():
+        if k in DOCUMENTED_DEFAULTS:
+            d = DOCUMENTED_DEFAULTS[k]
+            if (v is d) or (not isinstance(v, type) and not isinstance(d, type) and type(v) is type(d) and v == d):
+                continue
+        out[k] = v
+    return out
+
+
 def build_sim(cfg, num_threads=None):
     import sopht.simulator as sps
 
@@ -91,27 +113,27 @@ def build_sim(cfg, num_threads=None):
     thr = cfg["threads"] if num_threads is None else num_threads
     kind = cfg["sim"]
     shape = tuple(cfg["shape"])
+    omit = bool(cfg.get("omit_defaults", False))
     if kind == "ns2d":
-        return sps.UnboundedNavierStokesFlowSimulator2D(
-            grid_size=shape, x_range=cfg["x_range"], kinematic_viscosity=cfg["nu"], real_t=real_t,
-            num_threads=thr, time=cfg["time0"], with_forcing=cfg["with_forcing"],
-            with_free_stream_flow=cfg["with_free_stream"], flow_density=cfg["rho"],
-            penalty_zone_width=cfg["width"])
+        kw = dict(grid_size=shape, x_range=cfg["x_range"], kinematic_viscosity=cfg["nu"], real_t=real_t,
+                  num_threads=thr, time=cfg["time0"], with_forcing=cfg["with_forcing"],
+                  with_free_stream_flow=cfg["with_free_stream"], flow_density=cfg["rho"],
+                  penalty_zone_width=cfg["width"])
+        return sps.UnboundedNavierStokesFlowSimulator2D(**(_drop_defaults(kw) if omit else kw))
     if kind == "ns3d":
-        kw = {}
+        kw = dict(grid_size=shape, x_range=cfg["x_range"], kinematic_viscosity=cfg["nu"], real_t=real_t,
+                  num_threads=thr, time=cfg["time0"], with_forcing=cfg["with_forcing"],
+                  with_free_stream_flow=cfg["with_free_stream"], flow_density=cfg["rho"],
+                  filter_vorticity=bool(cfg["filter"]), poisson_solver_type=cfg["poisson"],
+                  penalty_zone_width=cfg["width"])
         if cfg["filter"]:
             kw["filter_setting_dict"] = {"order": cfg["filter"]["order"], "type": cfg["filter"]["type"]}
-        return sps.UnboundedNavierStokesFlowSimulator3D(
-            grid_size=shape, x_range=cfg["x_range"], kinematic_viscosity=cfg["nu"], real_t=real_t,
-            num_threads=thr, time=cfg["time0"], with_forcing=cfg["with_forcing"],
-            with_free_stream_flow=cfg["with_free_stream"], flow_density=cfg["rho"],
-            filter_vorticity=bool(cfg["filter"]), poisson_solver_type=cfg["poisson"],
-            penalty_zone_width=cfg["width"], **kw)
+        return sps.UnboundedNavierStokesFlowSimulator3D(**(_drop_defaults(kw) if omit else kw))
     dim = sim_dim(kind)
     ft = "vector" if kind.endswith("vector") else "scalar"
-    return sps.PassiveTransportFlowSimulator(
-        kinematic_viscosity=cfg["nu"], grid_dim=dim, grid_size=shape, x_range=cfg["x_range"],
-        real_t=real_t, num_threads=thr, time=cfg["time0"], field_type=ft)
+    kw = dict(kinematic_viscosity=cfg["nu"], grid_dim=dim, grid_size=shape, x_range=cfg["x_range"],
+              real_t=real_t, num_threads=thr, time=cfg["time0"], field_type=ft)
+    return sps.PassiveTransportFlowSimulator(**(_drop_defaults(kw) if omit else kw))
 
 
 def primary_field_of(sim, cfg):
@@ -132,6 +154,8 @@ def config_labels(cfg):
     if cfg.get("poisson") == "fast_diagonalisation":
         labs.append("fastdiag")
     labs.append("noncubic" if len(set(cfg["shape"])) > 1 else "cubic")
+    if cfg.get("omit_defaults"):
+        labs.append("default_arguments_omitted")
     return labs
 
 
